@@ -26,6 +26,7 @@ Lemma astate_le_inv : forall a b, astate_le a b = true ->
   a_rid a = a_rid b /\ a_fp a = a_fp b /\ stk_le (a_stk a) (a_stk b) = true.
 Proof.
   intros a b H. unfold astate_le in H.
+  apply andb_true_iff in H. destruct H as [H H4].
   apply andb_true_iff in H. destruct H as [H H3]. apply andb_true_iff in H. destruct H as [H1 H2].
   apply Nat.eqb_eq in H1. apply Bool.eqb_prop in H2. auto.
 Qed.
@@ -36,6 +37,140 @@ Proof.
   intros ann t a H. unfold le_at in H.
   destruct (nth_error ann t) as [[b|]|]; try discriminate.
   exists b. split; auto. apply astate_le_inv; auto.
+Qed.
+
+Lemma le_at_sl : forall ann t a b, le_at ann t a = true -> nth_error ann t = Some (Some b) ->
+  sl_le (a_sl a) (a_sl b) = true.
+Proof.
+  intros ann t a b H E. unfold le_at in H. rewrite E in H. unfold astate_le in H.
+  apply andb_true_iff in H. destruct H as [_ H]. exact H.
+Qed.
+
+(* ---- scratch slots ---- *)
+Definition slots_ok (scr : list (N * value)) (sl : list (N * ty)) : Prop :=
+  forall k t, In (k, t) sl -> has_ty (scratch_get scr k) t.
+
+Definition sl_any (sl : list (N * ty)) : bool := forallb (fun kt => ty_eqb (snd kt) TA) sl.
+
+Lemma alookup_In : forall (l : list (N * ty)) k t, alookup N.eqb k l = Some t -> In (k, t) l.
+Proof.
+  induction l as [|[j u] l IH]; intros k t H; cbn in H; try discriminate.
+  destruct (N.eqb k j) eqn:E.
+  - apply N.eqb_eq in E. inversion H; subst. left; reflexivity.
+  - right. auto.
+Qed.
+
+Lemma slot_ty_ok : forall scr sl k, slots_ok scr sl -> has_ty (scratch_get scr k) (slot_ty sl k).
+Proof.
+  intros scr sl k H. unfold slot_ty. destruct (alookup N.eqb k sl) as [t|] eqn:E.
+  - apply H. apply alookup_In; assumption.
+  - apply has_ty_TA.
+Qed.
+
+Lemma slots_ok_le : forall scr a b, slots_ok scr a -> sl_le a b = true -> slots_ok scr b.
+Proof.
+  intros scr a b H L k t I. unfold sl_le in L. rewrite forallb_forall in L. specialize (L _ I). cbn in L.
+  eapply has_ty_le; [apply slot_ty_ok; exact H | exact L].
+Qed.
+
+Lemma slots_ok_nil : forall scr, slots_ok scr [].
+Proof. intros scr k t []. Qed.
+
+Lemma slots_ok_any : forall scr sl, sl_any sl = true -> slots_ok scr sl.
+Proof.
+  intros scr sl H k t I. unfold sl_any in H. rewrite forallb_forall in H. specialize (H _ I). cbn in H.
+  apply ty_eqb_eq in H. subst. apply has_ty_TA.
+Qed.
+
+Lemma sl_le_nil_any : forall b, sl_le [] b = true -> sl_any b = true.
+Proof.
+  intros b H. unfold sl_le in H. unfold sl_any. rewrite forallb_forall in *. intros kt I. specialize (H _ I).
+  unfold slot_ty in H. cbn in H. destruct (snd kt); try discriminate; reflexivity.
+Qed.
+
+Lemma In_aremove : forall (l : list (N * ty)) k j t, In (j, t) (aremove N.eqb k l) -> j <> k /\ In (j, t) l.
+Proof.
+  induction l as [|[i u] l IH]; intros k j t H; cbn in H; [contradiction|].
+  destruct (N.eqb k i) eqn:E.
+  - destruct (IH _ _ _ H). split; auto. right; auto.
+  - destruct H as [H|H].
+    + inversion H; subst. split; [|left; reflexivity]. apply N.eqb_neq in E. congruence.
+    + destruct (IH _ _ _ H). split; auto. right; auto.
+Qed.
+
+Lemma alookup_aremove_neq : forall (l : list (N * value)) k j, j <> k ->
+  alookup N.eqb j (aremove N.eqb k l) = alookup N.eqb j l.
+Proof.
+  induction l as [|[i u] l IH]; intros k j N; cbn; auto.
+  destruct (N.eqb k i) eqn:E.
+  - apply N.eqb_eq in E. subst i. rewrite IH by assumption.
+    destruct (N.eqb j k) eqn:E2; auto. apply N.eqb_eq in E2. contradiction.
+  - cbn. destruct (N.eqb j i); auto.
+Qed.
+
+Lemma scratch_get_set : forall st k v j,
+  scratch_get (s_scratch (set_scratch st k v)) j = if N.eqb j k then v else scratch_get (s_scratch st) j.
+Proof.
+  intros st k v j. unfold set_scratch, scratch_get, aset. cbn.
+  destruct (N.eqb j k) eqn:E; auto.
+  rewrite alookup_aremove_neq; auto. apply N.eqb_neq; assumption.
+Qed.
+
+Lemma slots_ok_store : forall st sl k v t, slots_ok (s_scratch st) sl -> has_ty v t ->
+  slots_ok (s_scratch (set_scratch st k v)) (set_slot sl k t).
+Proof.
+  intros st sl k v t H Hv j u I. rewrite scratch_get_set. unfold set_slot in I. destruct I as [I|I].
+  - inversion I; subst. rewrite N.eqb_refl. assumption.
+  - apply In_aremove in I. destruct I as [Nj I]. apply N.eqb_neq in Nj. rewrite Nj. apply H; assumption.
+Qed.
+
+(* every ordinary opcode except store / stores leaves the scratch space alone *)
+Lemma exec_op_scratch : forall cx o imms stk st stk' st',
+  exec_op cx o imms stk st = OOk stk' st' -> o <> O_store -> o <> O_stores ->
+  s_scratch st' = s_scratch st.
+Proof.
+  intros cx o imms stk st stk' st' H N1 N2.
+  destruct o; try congruence; clear N1 N2.
+  all: cbv beta iota zeta delta [exec_op exec_pure oki okb okbool push_field push_afield] in H.
+  all: break_all H.
+  all: inversion H; subst; reflexivity.
+Qed.
+
+Lemma slot_effect_sound : forall cx i a s' cur cur' below st st',
+  exec_op cx (p_op i) (p_imms i) (cur ++ below) st = OOk (cur' ++ below) st' ->
+  stack_has cur (a_stk a) -> stack_has cur' s' -> slots_ok (s_scratch st) (a_sl a) ->
+  stack_has cur' (a_stk (slot_effect i a s')) /\ slots_ok (s_scratch st') (a_sl (slot_effect i a s')) /\
+  a_rid (slot_effect i a s') = a_rid a /\ a_fp (slot_effect i a s') = a_fp a.
+Proof.
+  intros cx [o imms] a s' cur cur' below st st' H Hc Hc' Hsl. cbn [p_op p_imms] in H.
+  assert (forall q, slot_effect (mkP o imms) a s' = with_stk a q -> q = s' ->
+          o <> O_store -> o <> O_stores ->
+          stack_has cur' (a_stk (slot_effect (mkP o imms) a s')) /\ slots_ok (s_scratch st') (a_sl (slot_effect (mkP o imms) a s')) /\
+          a_rid (slot_effect (mkP o imms) a s') = a_rid a /\ a_fp (slot_effect (mkP o imms) a s') = a_fp a) as Plain.
+  { intros q E Eq N1 N2. rewrite E. subst q. cbn. repeat split; auto.
+    rewrite (exec_op_scratch _ _ _ _ _ _ _ H N1 N2). assumption. }
+  destruct o; try (apply (Plain s'); [reflexivity | reflexivity | discriminate | discriminate]).
+  - (* load *)
+    unfold slot_effect; cbn [p_op p_imms].
+    destruct imms as [|[k|?|?] [|? ?]]; try (apply (Plain s'); [reflexivity | reflexivity | discriminate | discriminate]).
+    cbv beta iota zeta delta [exec_op exec_pure] in H. cbn [imms_to_args] in H.
+    destruct (k <? 256)%N; try discriminate. inversion H; subst st'.
+    match goal with E : _ :: cur ++ below = cur' ++ below |- _ => rename E into E0 end.
+    change (scratch_get (s_scratch st) k :: cur ++ below) with ((scratch_get (s_scratch st) k :: cur) ++ below) in E0.
+    apply app_inv_tail in E0. subst cur'.
+    destruct s' as [|t0 r].
+    + inversion Hc'.
+    + inversion Hc'; subst. cbn. repeat split; auto. constructor; auto. apply slot_ty_ok; assumption.
+  - (* store *)
+    unfold slot_effect; cbn [p_op p_imms].
+    destruct imms as [|[k|?|?] [|? ?]]; cbn; try (repeat split; auto using slots_ok_nil).
+    destruct (a_stk a) as [|t ts] eqn:Ea; cbn; repeat split; auto using slots_ok_nil.
+    inversion Hc as [|v0 t' cur0 ts' Hv Hr]; subst.
+    cbv beta iota zeta delta [exec_op exec_pure] in H. cbn [imms_to_args app] in H.
+    destruct (k <? 256)%N; try discriminate. inversion H; subst.
+    apply slots_ok_store; assumption.
+  - (* stores *)
+    unfold slot_effect; cbn [p_op p_imms]. cbn. repeat split; auto using slots_ok_nil.
 Qed.
 
 Lemma not_proto_at_inv : forall p t, not_proto_at p t = true ->
@@ -115,6 +250,7 @@ Section Sound.
             stk_le (r_rets r ++ rest_abs) (a_stk ac) = true /\
             below = lower ++ below' /\ stack_has lower rest_abs /\
             not_proto_at p (f_ret f) = true /\
+            sl_any (a_sl ac) = true /\
             frames_ok (a_rid ac) (a_fp ac) fs below'
     end.
 
@@ -125,14 +261,15 @@ Section Sound.
       m_stack m = cur ++ below /\
       stack_has cur (a_stk a) /\
       frames_ok (a_rid a) (a_fp a) (m_calls m) below /\
-      (forall i, nth_error (pr_code p) (m_pc m) = Some i -> is_proto (p_op i) = true -> m_from_callsub m = true).
+      (forall i, nth_error (pr_code p) (m_pc m) = Some i -> is_proto (p_op i) = true -> m_from_callsub m = true) /\
+      slots_ok (s_scratch (m_st m)) (a_sl a).
 
   Hypothesis IND : annot_inductive p rt ann = true.
 
   Lemma ind_rt : rt_ok rt = true.
   Proof. pose proof IND as I. unfold annot_inductive in I. repeat (apply andb_true_iff in I; destruct I as [I ?]). assumption. Qed.
 
-  Lemma ind_entry : le_at ann 0 (mkA 0 false []) = true /\ not_proto_at p 0 = true.
+  Lemma ind_entry : le_at ann 0 (mkA 0 false [] []) = true /\ not_proto_at p 0 = true.
   Proof. pose proof IND as I. unfold annot_inductive in I. repeat (apply andb_true_iff in I; destruct I as [I ?]). auto. Qed.
 
   Lemma ind_pc : forall pc a, nth_error ann pc = Some (Some a) ->
@@ -147,20 +284,36 @@ Section Sound.
   Qed.
 
   (* moving to an ordinary successor inside the same routine *)
+  Lemma conf_next_gen : forall m a below t a' cur' m',
+    frames_ok (a_rid a) (a_fp a) (m_calls m) below ->
+    le_at ann t a' = true -> not_proto_at p t = true ->
+    a_rid a' = a_rid a -> a_fp a' = a_fp a ->
+    stack_has cur' (a_stk a') ->
+    m_pc m' = t -> m_stack m' = cur' ++ below -> m_calls m' = m_calls m ->
+    slots_ok (s_scratch (m_st m')) (a_sl a') ->
+    conf m'.
+  Proof.
+    intros m a below t a' cur' m' Hfr Hle Hnp Hr Hf Hs Hpc Hst Hc Hsl.
+    destruct (le_at_inv _ _ _ Hle) as [b [Hb [Er [Ef Ls]]]].
+    exists b, cur', below. rewrite Hpc, Hst, Hc. repeat split; auto.
+    - eapply stk_le_has; eauto.
+    - rewrite <- Er, <- Ef, Hr, Hf. assumption.
+    - intros i Hi Hp. destruct (not_proto_at_inv _ _ Hnp) as [j [Hj Hq]]. congruence.
+    - eapply slots_ok_le; [exact Hsl | eapply le_at_sl; eauto].
+  Qed.
+
+  (* ... by a step that touches neither the scratch space nor the slot types *)
   Lemma conf_next : forall m a below t a' cur' m',
     frames_ok (a_rid a) (a_fp a) (m_calls m) below ->
     le_at ann t a' = true -> not_proto_at p t = true ->
     a_rid a' = a_rid a -> a_fp a' = a_fp a ->
     stack_has cur' (a_stk a') ->
     m_pc m' = t -> m_stack m' = cur' ++ below -> m_calls m' = m_calls m ->
+    slots_ok (s_scratch (m_st m)) (a_sl a) -> a_sl a' = a_sl a -> m_st m' = m_st m ->
     conf m'.
   Proof.
-    intros m a below t a' cur' m' Hfr Hle Hnp Hr Hf Hs Hpc Hst Hc.
-    destruct (le_at_inv _ _ _ Hle) as [b [Hb [Er [Ef Ls]]]].
-    exists b, cur', below. rewrite Hpc, Hst, Hc. repeat split; auto.
-    - eapply stk_le_has; eauto.
-    - rewrite <- Er, <- Ef, Hr, Hf. assumption.
-    - intros i Hi Hp. destruct (not_proto_at_inv _ _ Hnp) as [j [Hj Hq]]. congruence.
+    intros m a below t a' cur' m' Hfr Hle Hnp Hr Hf Hs Hpc Hst Hc Hsl Esl Est.
+    eapply conf_next_gen; eauto. rewrite Esl, Est. assumption.
   Qed.
 
   Lemma frames_nonmain : forall rid fp frames below,
@@ -175,7 +328,7 @@ Section Sound.
     sig_of (p_op i) (p_imms i) <> SCtl -> sig_of (p_op i) (p_imms i) <> SUnknown ->
     transfer strict lr p rt pc i a =
     match sig_apply strict (sig_of (p_op i) (p_imms i)) (a_stk a) with
-    | Some s' => TSucc [(S pc, with_stk a s')] None
+    | Some s' => TSucc [(S pc, slot_effect i a s')] None
     | None => TErr "operand missing on the routine's stack or of the wrong type"
     end.
   Proof.
@@ -191,7 +344,7 @@ Section Sound.
 
   Lemma step_conf : forall cx m m', ctx_typed cx -> conf m -> step cx p m = Running m' -> conf m'.
   Proof.
-    intros cx m m' CT [a [cur [below [Ha [Hst [Hh [Hfr Hpr]]]]]]] Hstep.
+    intros cx m m' CT [a [cur [below [Ha [Hst [Hh [Hfr [Hpr Hsl]]]]]]]] Hstep.
     destruct (ind_pc _ _ Ha) as [i [Hi Hchk]].
     unfold step in Hstep. rewrite Hi in Hstep.
     destruct (STACK_MAX <? height m)%nat; try discriminate.
@@ -207,7 +360,9 @@ Section Sound.
       destruct (check_succs_one _ _ Hchk) as [Hle Hnp].
       rewrite Hst in He.
       destruct (exec_op_sound _ _ _ _ _ _ _ _ _ _ _ CT Hs Hh He) as [cur' [E Hc]].
-      eapply conf_next with (m := m) (a := a) (cur' := cur'); eauto. }
+      subst stk'.
+      destruct (slot_effect_sound _ _ _ _ _ _ _ _ _ He Hh Hc Hsl) as [Hc2 [Hsl2 [Er2 Ef2]]].
+      eapply conf_next_gen with (m := m) (a := a) (cur' := cur') (a' := slot_effect i a s'); eauto. }
     { (* control *)
       destruct (exec_op_not_ctl _ _ _ _ _ He) as [Hsig|Hsig].
       2: { unfold transfer in Hchk. rewrite Hsig in Hchk. discriminate. }
@@ -455,7 +610,7 @@ Section Sound.
     nth_error (pr_code p) (m_pc m) = Some i -> structural (p_op i) = true ->
     step cx p m = Done VFail mf -> False.
   Proof.
-    intros cx m mf i0 [a [cur [below [Ha [Hst [Hh [Hfr Hpr]]]]]]] Hmax Hi0 Hs0 Hstep.
+    intros cx m mf i0 [a [cur [below [Ha [Hst [Hh [Hfr [Hpr Hsl]]]]]]]] Hmax Hi0 Hs0 Hstep.
     destruct (ind_pc _ _ Ha) as [i [Hi Hchk]].
     rewrite Hi in Hi0. inversion Hi0; subst i0; clear Hi0.
     unfold step in Hstep. rewrite Hi in Hstep.
